@@ -142,5 +142,15 @@ Fixpoint idle_rounds (np : Z) (ds : list Z) : list (ev * Z) :=
 Fixpoint pings_only (np : Z) (k : nat) : list (ev * Z) :=
   match k with O => [] | S k' => (EPing, np) :: pings_only (np + ping_period) k' end.
 
+(* ---- when the cancellation takes effect on the socket ----
+   Before the repair F12c the watcher only closed `cancelled`, which writePump looks at between
+   writes: a writer blocked inside a write since [w] (a reader that stalled) saw it only when the
+   write returned, at the latest at its write deadline w + writeWait.  Since the repair the
+   watcher closes the socket itself. *)
+Definition write_wait : Z := 10 * ns_per_s.
+Definition cancel_seen_unrepaired (fire_ns : Z) (blocked_since : option Z) : Z :=
+  match blocked_since with Some w => Z.max fire_ns (w + write_wait) | None => fire_ns end.
+Definition cancel_seen (fire_ns : Z) (blocked_since : option Z) : Z := fire_ns.
+
 Definition closed_at (c : conn) : option Z :=
   match status c with Open => None | Closed _ a => Some a end.
